@@ -31,10 +31,40 @@ def char_width(ch: str) -> int:
     return w if w >= 0 else 0
 
 
+LENIENT = False  # utf8 only: a byte that does not start a well-formed character is one cell of its own
+
+
+def set_lenient(flag: bool) -> None:
+    global LENIENT
+    LENIENT = bool(flag)
+
+
+def _split_utf8_lenient(b: bytes):
+    out = []
+    i, n = 0, len(b)
+    while i < n:
+        c = b[i]
+        k = 1 if c < 0x80 else 2 if 0xC2 <= c < 0xE0 else 3 if 0xE0 <= c < 0xF0 else 4 if 0xF0 <= c < 0xF5 else 0
+        chunk = b[i : i + k]
+        try:
+            if not k:
+                raise ValueError
+            ch = chunk.decode("utf-8")
+        except ValueError:
+            out.append((b[i : i + 1], 1))
+            i += 1
+            continue
+        out.append((chunk, char_width(ch)))
+        i += k
+    return out
+
+
 def split_chars(b: bytes, mode: str):
     """bytes of one row -> list of (char_bytes, width).  mode in utf8|wide|narrow.
-    Raises ValueError on bytes that are not text in that encoding."""
+    Raises ValueError on bytes that are not text in that encoding (unless LENIENT)."""
     out = []
+    if mode == "utf8" and LENIENT:
+        return _split_utf8_lenient(b)
     if mode == "utf8":
         i, n = 0, len(b)
         while i < n:
